@@ -105,7 +105,8 @@ def sched_cases(draw):
     prio = draw(st.permutations(sorted(barriers)))
     return {'spec': {'layers': layers, 'modules': mods}, 'n': n, 'verbose': draw(st.sampled_from([0, 1, 2, 3])),
             'barriers': barriers, 'prio': list(prio), 'resume': resume,
-            'shuffle': draw(st.one_of(st.none(), st.none(), st.integers(0, 999)))}
+            'shuffle': draw(st.one_of(st.none(), st.none(), st.integers(0, 999))),
+            'progress': draw(st.sampled_from([False, False, False, True]))}
 
 
 @st.composite
@@ -119,10 +120,21 @@ def diff_cases(draw):
             L['hooks'] = sorted(set(L['hooks']) | {'setUp', 'tearDown'}, key=gen.HOOKS.index)
     tokens = gen.add_outputs(draw, spec, prob=60, streams=('p',), bad_bytes=False, max_per_test=2)
     nl = len(spec['layers'])
+    if draw(st.integers(0, 2)) == 0:
+        # names with regular-expression metacharacters, case-only differences, leading zeros
+        from .c10 import TRICKY
+        for L, nm in zip(spec['layers'], draw(st.permutations(TRICKY))):
+            L['name'] = nm
+    if draw(st.integers(0, 3)) == 0:
+        # a child whose interpreter shutdown writes to fd 2 after its report was sent
+        tests = [t for _, t in gen.iter_tests(spec)]
+        t = tests[draw(st.integers(0, len(tests) - 1))]
+        t.setdefault('acts', {}).setdefault('setUp', []).append(
+            ['in_child', ['atexit_noise', 'fd2', draw(st.sampled_from(['bye from a helper\n', 'x\ny\n', 'no newline'])), 1]])
     return {'spec': spec, 'n': draw(st.sampled_from([1] + list(range(2, nl + 3)) * 2)),
             'verbose': draw(st.sampled_from([0, 1, 2, 3])),
             'tokens': sorted(tokens), 'shuffle': draw(st.one_of(st.none(), st.none(), st.integers(0, 999))),
-            'buffer': False}
+            'buffer': False, 'progress': draw(st.sampled_from([False, False, False, True]))}
 
 
 # ------------------------------------------------------------------------------------------------
@@ -186,10 +198,22 @@ def alive_overlap(trace, main_pid):
     return best, len(first)
 
 
-def compare_runs(spec, seq, par, tag, verbose, layer_faults, viol, n):
+def order_by_layer(spec, run):
+    """layer name -> test ids in execution order (first occurrence of each layer group, per process)"""
+    w = traceana.World(spec)
+    out = {}
+    for e in run.trace:
+        if e['ev'] == 'T' and e['ph'] == 'run':
+            rec = w.tests.get(e['id'])
+            if rec is not None:
+                out.setdefault(rec['layer_name'], []).append(e['id'])
+    return out
+
+
+def compare_runs(spec, seq, par, tag, verbose, layer_faults, viol, n, progress=False):
     """differential sequential vs. -j N (both already checked for escaping exceptions)"""
-    ps = parse.parse(seq.out)
-    pp = parse.parse(strip_keepalive(par.out))
+    ps = parse.parse(seq.out, progress=progress)
+    pp = parse.parse(strip_keepalive(par.out), progress=progress)
     if seq.failed != par.failed:
         viol.append(('C06/verdict-differs/' + tag, 'sequential verdict failed=%s, -j%d verdict failed=%s'
                      % (seq.failed, n, par.failed)))
@@ -202,6 +226,14 @@ def compare_runs(spec, seq, par, tag, verbose, layer_faults, viol, n):
         if a != b:
             viol.append(('C06/outcomes-differ/' + tag, 'test phases executed differ: %s'
                          % _sh(sorted(((a - b) + (b - a)).items())[:4], spec)))
+        # the tests of a layer run in the same order (no shuffle, or the same explicit seed): order-dependent tests
+        # would otherwise have different outcomes
+        oa, ob = order_by_layer(spec, seq), order_by_layer(spec, par)
+        for ln in oa:
+            if ln in ob and oa[ln] != ob[ln] and sorted(oa[ln]) == sorted(ob[ln]):
+                viol.append(('C06/test-order-differs/' + tag, 'layer %s: sequential order %s, -j%d order %s'
+                             % (_sh(ln, spec), _sh(oa[ln], spec), n, _sh(ob[ln], spec))))
+                break
     # per-layer summaries and header order
     hs = [blk.layer for blk in ps.blocks]
     hp = [blk.layer for blk in pp.blocks if blk.layer != EMPTY]
@@ -439,6 +471,9 @@ class Sched(Part):
         base = ['-v'] * case['verbose']
         if case.get('shuffle') is not None:
             base += ['--shuffle', '--shuffle-seed', str(case['shuffle'])]
+        progress = bool(case.get('progress'))
+        if progress:
+            base += ['-p']
         with drive.World(spec) as W:
             seq = W.run(base, timeout=STEP_TIMEOUT * 2)
             viol += cli_escaped(seq, 'sequential')
@@ -465,7 +500,7 @@ class Sched(Part):
                          % (overlap, n)))
         labels = ['N=%d' % n, 'v%d' % case['verbose'], 'children=%d' % min(nchildren, 5)]
         if not seq.timeout and not par.timeout and seq.exit in (0, 1) and par.exit in (0, 1) and not info['stalled']:
-            ps, pp = compare_runs(spec, seq, par, tag, case['verbose'], False, viol, n)
+            ps, pp = compare_runs(spec, seq, par, tag, case['verbose'], False, viol, n, progress)
             where, tl = check_blocks(spec, pp, par.out, tag, viol)
             missing = [t for t in tl if t not in where]
             seq_tokens = set(RE_TOKEN.findall(seq.out))
@@ -478,7 +513,7 @@ class Sched(Part):
         start_order = [blk for blk in fin]
         reordered = False
         if not viol:
-            seq_heads = [blk.layer for blk in parse.parse(seq.out).blocks]
+            seq_heads = [blk.layer for blk in parse.parse(seq.out, progress=progress).blocks]
             pos = {}
             for g in fin:
                 pos[g] = seq_heads.index(model.layer_fullname(spec, g)) if model.layer_fullname(spec, g) in seq_heads else -1
@@ -488,6 +523,8 @@ class Sched(Part):
             labels.append('completion-order!=start-order')
         if case.get('resume'):
             labels.append('resumed-j1')
+        if progress:
+            labels.append('--progress')
         if len(case['barriers']) > len(groups):
             labels.append('several-barriers-in-a-layer')
         labels.append('collector:' + ('immediate' if n == 1 else 'keepalive' if case['verbose'] > 1 else 'deferred'))
@@ -508,7 +545,8 @@ class Diff(Part):
         spec = common.with_prefix(copy.deepcopy(base))
         n = case['n']
         viol = []
-        opts = {'verbose': case['verbose'], 'shuffle': case.get('shuffle')}
+        progress = bool(case.get('progress'))
+        opts = {'verbose': case['verbose'], 'shuffle': case.get('shuffle'), 'extra': ['-p'] if progress else []}
         seq = drive.run_inproc(spec, common.args_of(opts), disk=True)
         viol += [(s + '/sequential', m) for s, m in common.run_escaped(seq, 'C06')]
         par = drive.run_inproc(spec, common.args_of(dict(opts, j=n)), disk=True)
@@ -520,7 +558,7 @@ class Diff(Part):
             viol.append(('C06/more-than-N-alive/' + tag, '%d layer subprocesses alive at the same instant with -j %d'
                          % (overlap, n)))
         if seq.exc is None and par.exc is None:
-            ps, pp = compare_runs(spec, seq, par, tag, case['verbose'], layer_faults, viol, n)
+            ps, pp = compare_runs(spec, seq, par, tag, case['verbose'], layer_faults, viol, n, progress)
             setup_faults = any('setUp' in (L.get('faults') or {}) for L in spec['layers'])
             if not setup_faults:
                 where, tl = check_blocks(spec, pp, par.out, tag, viol)
@@ -537,6 +575,10 @@ class Diff(Part):
             labels.append('has-bad')
         if overlap >= 2:
             labels.append('overlap>=2')
+        if progress:
+            labels.append('--progress')
+        if any(e['ev'] == 'noise' and str(e.get('where', '')).endswith(':atexit') for e in par.trace):
+            labels.append('child-shutdown-noise')
         return Outcome(viol, labels, nchildren >= 2 and n >= 2 and bad)
 
 
